@@ -76,7 +76,8 @@ func (s *c19SetIntern) id(cs *syntax.CharSet) int64 {
 	return v
 }
 
-func c19IsCased(r rune) bool { return unicode.IsLower(r) || unicode.IsUpper(r) }
+// the test of nodeWithCaseConversion (tree.go:189)
+func c19IsCased(r rune) bool { return unicode.SimpleFold(r) != r }
 
 // participatesInCaseConversion (charclass.go:1358) is unexported; its observable is whether a
 // two-rune run of the character becomes a Multi under IgnoreCase
@@ -388,7 +389,7 @@ func legC19Parse(c *Ctx) {
 			if cs.kind == "escape" || cs.kind == "anchored" {
 				if cs.o&syntax.RightToLeft == 0 {
 					// Escape output never leaves the fragment
-					c.Add(&Case{Desc: desc, Direct: "the model declares an Escape output outside the literal fragment", Class: cl, Guard: c19ParseGuard(cs.s, cs.o)})
+					c.Add(&Case{Desc: desc, Direct: "the model declares an Escape output outside the literal fragment", Class: cl})
 					continue
 				}
 			}
@@ -408,7 +409,6 @@ func legC19Parse(c *Ctx) {
 			want := c19LiteralTree(cs.s, cs.o)
 			if !eqInts(impl[i], want) {
 				cse.Direct = fmt.Sprintf("Parse(Escape(%+q)) is not the literal tree: got %v want %v", string(cs.s), fmtInts(impl[i]), fmtInts(want))
-				cse.Guard = c19ParseGuard(cs.s, cs.o)
 			}
 		}
 		c.Add(cse)
@@ -430,20 +430,6 @@ func legC19Parse(c *Ctx) {
 	c.Gate("compared random patterns", kinds["random"] > n/4)
 	c.Gate("some cases outside the fragment", outside > 0)
 	c.Gate("most cases inside the fragment", compared > 2*outside)
-}
-
-// known finding: under ECMAScript `\x{...}` is not an escape, and Escape writes non-printable runes
-// beyond the BMP that way
-func c19ParseGuard(s []rune, o syntax.RegexOptions) string {
-	if o&syntax.ECMAScript == 0 {
-		return ""
-	}
-	for _, r := range s {
-		if r > 0xFFFF && !unicode.IsPrint(r) {
-			return "escape_ecma_astral"
-		}
-	}
-	return ""
 }
 
 func c19DescribeImpl(out []int64, err error) string {
